@@ -1,38 +1,85 @@
 (* C07 — property theorems only. *)
-From SwayV Require Import Base.Util Asm.Model Asm.Delete C08.Spec C08.Model C07.Model C07.Spec C07.Proofs.
+From Coq Require Import MSets.MSetPositive FSets.FMapPositive.
+From SwayV Require Import Base.Util Asm.Model Asm.Erase Asm.Delete Asm.Inplace C08.Spec C08.Model
+  C07.Model C07.Spec C07.Proofs C07.ProofsInplace C07.ProofsDce C07.ProofsCfg.
 Local Open Scope N_scope.
 
-(* Deleting instructions preserves behaviour (stuttering simulation in both directions, every
-   instruction semantics in which RVRT stops and side-effect-free ops do not trap) whenever the
-   decidable side condition holds: every reachable deleted instruction is MOVE/NOOP/side-effect
-   free and writes only registers dead in the reduced program (and no call input). *)
+(* liveness_analysis (model): the table it returns contains every register that is read before
+   being written on some path from i (the least solution of the dataflow equations). *)
+Theorem C07_liveness_sound : forall kill fuel ops L, liveness kill fuel ops = Some L ->
+  forall i r, live_gen kill ops i r -> PS.In (rkey r) (lget L i).
+Proof. exact liveness_sound. Qed.
+Print Assumptions C07_liveness_sound.
+
+(* General: deleting instructions preserves behaviour under the decidable side condition. *)
 Theorem C07_delete_preserves : forall inv ops keep, delete_ok inv ops keep = true ->
   deletion_sim ops keep (K_of inv ops keep) (Inv_of inv (length ops)).
 Proof. exact delete_preserves. Qed.
 Print Assumptions C07_delete_preserves.
 
-(* Full statement wanted: forall sem ops, exec sem (remove_redundant_ops ops) ~ exec sem ops.
-   Proved under the side condition (evaluated per run on every real input of the pass); the
-   unconditional statement is refuted below (the guard of the pass only looks at the next op). *)
-Theorem C07_remove_redundant_ops_preserves_partial : forall ops, side_ok 3 ops = true ->
-  remove_redundant_ops ops = select (redundant_keep ops) ops /\
-  deletion_sim ops (redundant_keep ops) (K_of all_inv ops (redundant_keep ops)) (Inv_of all_inv (length ops)).
-Proof. exact remove_redundant_ops_preserves. Qed.
-Print Assumptions C07_remove_redundant_ops_preserves_partial.
-
-(* dce: the deleted set the pass computes is not proved to satisfy the side condition for all
-   programs (liveness_sound for the block-local scan is missing); per run it is checked. *)
-Theorem C07_dce_preserves_partial : forall ops out, dce ops = POk out -> side_ok 4 ops = true ->
-  out = ops \/ exists keep, out = select keep ops /\
-    deletion_sim ops keep (K_of all_inv ops keep) (Inv_of all_inv (length ops)).
+(* dce: for every program whose use/def table is well formed, the output is the input with
+   instructions deleted, related by a stuttering simulation in both directions for every
+   instruction semantics in which RVRT stops and side-effect-free ops do not trap. *)
+Theorem C07_dce_preserves : forall ops out, dce_table_ok ops = true -> dce ops = POk out ->
+  out = ops \/ exists keep, out = select keep ops /\ deletion_sim ops keep (dceK ops keep) (fun _ => True).
 Proof. exact dce_preserves. Qed.
-Print Assumptions C07_dce_preserves_partial.
+Print Assumptions C07_dce_preserves.
 
-Theorem C07_simplify_cfg_preserves_partial : forall ops out, simplify_cfg ops = POk out -> side_ok 5 ops = true ->
-  out = ops \/ exists keep, out = select keep ops /\
-    deletion_sim ops keep (K_of (cfg_inv ops) ops keep) (Inv_of (cfg_inv ops) (length ops)).
-Proof. exact simplify_cfg_preserves. Qed.
-Print Assumptions C07_simplify_cfg_preserves_partial.
+(* simplify_cfg: the worklist's set contains the entry and is closed under successors; only
+   instructions outside it are deleted. *)
+Theorem C07_simplify_cfg_preserves : forall ops out, forallb wf_c_opb ops = true -> simplify_cfg ops = POk out ->
+  out = ops \/ exists keep seen, out = select keep ops /\ cfg_seen ops = Some seen /\
+    inS seen 0%nat /\ deletion_sim ops keep (fun _ => False) (cfgInv seen (length ops)).
+Proof. exact simplify_cfg_preserves_full. Qed.
+Print Assumptions C07_simplify_cfg_preserves.
+
+(* remove_redundant_ops with the forward guard on def-const registers (the repaired pass):
+   stuttering simulation in both directions; related states agree on memory and on every register
+   except a dead $of/$err.  Zero-length MCP/MCPI are assumed to be no-ops. *)
+Theorem C07_remove_redundant_ops_preserves : forall ops, rro_table_ok ops = true ->
+  forall (M : Type) sem call_sem, rvrt_stops M sem -> mcp_zero_skips M sem ops ->
+  forall st st', R M ops (redundant_keep ops) flagK st st' ->
+  (forall n, exists m, (m <= n)%nat /\
+     Rres M ops (redundant_keep ops) flagK (run M sem call_sem ops n st)
+                                           (run M sem call_sem (remove_redundant_ops ops) m st')) /\
+  (forall m, exists n,
+     Rres M ops (redundant_keep ops) flagK (run M sem call_sem ops n st)
+                                           (run M sem call_sem (remove_redundant_ops ops) m st')).
+Proof. exact remove_redundant_ops_preserves. Qed.
+Print Assumptions C07_remove_redundant_ops_preserves.
+
+(* remove_redundant_moves (iterated to its fixpoint): lock-step equivalence — same pc, memory and
+   constant registers at every step, both stop together. *)
+Theorem C07_remove_redundant_moves_preserves : forall ops out, moves_table_ok ops = true ->
+  remove_redundant_moves ops = Some out -> lock_equiv ops out.
+Proof. exact remove_redundant_moves_preserves. Qed.
+Print Assumptions C07_remove_redundant_moves_preserves.
+
+(* remove_sequential_jumps.  Full statement wanted: forall ops, lock_equiv ops (pass ops).
+   Proved only when the flags cleared by the NOOPs that replace the jumps are dead there
+   (seqj_flags_dead); the unconditional statement is refuted in the model below: a jump leaves
+   $of/$err alone, the NOOP put in its place clears them. *)
+Theorem C07_remove_sequential_jumps_preserves_partial : forall ops,
+  forallb wf_c_opb ops = true -> nodup_b (labels_of ops) = true -> seqj_flags_dead ops ->
+  lock_equiv ops (remove_sequential_jumps ops).
+Proof. exact remove_sequential_jumps_preserves_partial. Qed.
+Print Assumptions C07_remove_sequential_jumps_preserves_partial.
+
+Definition sj_ops : list op :=
+  [ mkOp [] [1000] [R_OF] false (KOther 40 []);       (* sets r1000 and $of *)
+    mkOp [] [] [] true (KJump 0);
+    mkOp [] [] [] true (KLabel 0);
+    mkOp [R_OF] [1002] [R_OF; R_ERR] false (KMove 1002 R_OF) ].
+Definition rx_sem (opc : N) (_ : list N) (_ : list val) (m : unit) : option (list val * unit) :=
+  Some ([1; 9], m).
+Definition rx_call (_ : label) (_ : list val) (m : unit) : option (list val * unit) := None.
+Definition rx_final (ops : list op) (n : nat) : N :=
+  match run unit rx_sem rx_call ops n (mkSt 0 (fun _ => 0) tt) with
+  | Running s => rf s 1002 | Stopped s => rf s 1002 end.
+Theorem C07_remove_sequential_jumps_refuted :
+  rx_final sj_ops 4 = 9 /\ rx_final (remove_sequential_jumps sj_ops) 4 = 0.
+Proof. vm_compute. split; reflexivity. Qed.
+Print Assumptions C07_remove_sequential_jumps_refuted.
 
 (* identical initial states at the entry are related (so the simulations start) *)
 Theorem C07_initial_related : forall M ops keep K (Inv : nat -> Prop) (st : state M),
@@ -40,8 +87,7 @@ Theorem C07_initial_related : forall M ops keep K (Inv : nat -> Prop) (st : stat
 Proof. exact Rd_initial. Qed.
 Print Assumptions C07_initial_related.
 
-(* The Opt1 round loop returns one of the iterates of two Opt0 runs; hence any reflexive and
-   transitive relation that Opt0 preserves is preserved by the loop. *)
+(* The Opt1 round loop returns one of the iterates of two Opt0 runs. *)
 Theorem C07_optimize_rounds_iterate : forall f n ops, exists k, (k <= n)%nat /\
   opt_rounds f n ops = Nat.iter k (fun x => f (f x)) ops.
 Proof. exact opt_rounds_iterate. Qed.
@@ -53,26 +99,24 @@ Theorem C07_optimize_rounds_sound : forall (P : list op -> list op -> Prop) f,
 Proof. exact opt_rounds_sound. Qed.
 Print Assumptions C07_optimize_rounds_sound.
 
-(* Refutation of the unconditional statement for remove_redundant_ops in the model: a NOOP
-   (which clears $of) is removed although $of is read two instructions later. *)
+(* Regression for the repaired defect: the NOOP that clears $of is kept because $of is read two
+   instructions later (before the fix the model, like the code, removed it). *)
 Definition rx_ops : list op :=
-  [ mkOp [] [1000] [R_OF] false (KOther 40 []);       (* sets r1000 and $of *)
-    NOOP_OP;                                           (* clears $of/$err *)
-    mkOp [] [1001] [] false (KOther 41 []);            (* no def-const registers, does not read $of *)
+  [ mkOp [] [1000] [R_OF] false (KOther 40 []);
+    NOOP_OP;
+    mkOp [] [1001] [] false (KOther 41 []);
     mkOp [R_OF] [1002] [R_OF; R_ERR] false (KMove 1002 R_OF) ].
-Definition rx_sem (opc : N) (_ : list N) (_ : list val) (m : unit) : option (list val * unit) :=
-  Some ([1; 9], m).
-Definition rx_call (_ : label) (_ : list val) (m : unit) : option (list val * unit) := None.
-Definition rx_final (ops : list op) (n : nat) : N :=
-  match run unit rx_sem rx_call ops n (mkSt 0 (fun _ => 0) tt) with
-  | Running s => rf s 1002 | Stopped s => rf s 1002 end.
-Theorem C07_remove_redundant_ops_refuted :
-  length (remove_redundant_ops rx_ops) = 3%nat /\
-  rx_final rx_ops 4 = 0 /\ rx_final (remove_redundant_ops rx_ops) 3 = 9.
-Proof. vm_compute. repeat split; reflexivity. Qed.
-Print Assumptions C07_remove_redundant_ops_refuted.
+Example C07_noop_kept_when_flag_read_later :
+  remove_redundant_ops rx_ops = rx_ops /\ rx_final rx_ops 4 = 0.
+Proof. vm_compute. split; reflexivity. Qed.
+Example C07_noop_removed_when_flags_redefined :
+  remove_redundant_ops [NOOP_OP; mkOp [] [1001] [] false (KOther 41 []);
+                        mkOp [1001;1] [1002] [R_OF; R_ERR] false (KOther 7 [OReg 1002; OReg 1001; OReg 1])]
+  = [mkOp [] [1001] [] false (KOther 41 []);
+     mkOp [1001;1] [1002] [R_OF; R_ERR] false (KOther 7 [OReg 1002; OReg 1001; OReg 1])].
+Proof. vm_compute. reflexivity. Qed.
 
-(* Non-vacuity: a dead ALU op and an unreachable block are deleted and the side conditions hold. *)
+(* Non-vacuity: a dead ALU op and an unreachable block are deleted; table conditions hold. *)
 Definition ex7 : list op :=
   [ mkOp [] [1000] [2;8] false (KOther 6 [OReg 1000; OImm 1]);
     mkOp [1000;1] [1001] [2;8] false (KOther 7 [OReg 1001; OReg 1000; OReg 1]);   (* dead *)
@@ -82,11 +126,11 @@ Definition ex7 : list op :=
     mkOp [] [] [] true (KLabel 0);
     mkOp [1000] [] [] true (KOther 1 [OReg 1000]) ].
 Example C07_example_dce :
-  dce ex7 = POk (select [true;false;true;true;true;true;true] ex7) /\ side_ok 4 ex7 = true.
+  dce ex7 = POk (select [true;false;true;true;true;true;true] ex7) /\ dce_table_ok ex7 = true.
 Proof. vm_compute. split; reflexivity. Qed.
 Example C07_example_cfg :
-  simplify_cfg ex7 = POk (select [true;true;true;false;false;true;true] ex7) /\ side_ok 5 ex7 = true.
-Proof. vm_compute. split; reflexivity. Qed.
+  simplify_cfg ex7 = POk (select [true;true;true;false;false;true;true] ex7).
+Proof. vm_compute. reflexivity. Qed.
 Example C07_example_seqjump :
   remove_sequential_jumps (select [false;false;true;false;false;true;true] ex7) =
   [NOOP_OP; mkOp [] [] [] true (KLabel 0); mkOp [1000] [] [] true (KOther 1 [OReg 1000])].
